@@ -33,7 +33,7 @@ man = {
                  "kind_free_text": "Hypothesis-driven property-based testing: JSON spec generators, spec->msdm builders, independent reference models (numpy/fractions), named assertions, shrunk replay files, sharded over processes"}],
     "checks": checks,
     "not_applicable": na,
-    "notes": "Every check: ./check <id> [--tier quick|thorough] [--replay file]. VERIF_SEED selects the Hypothesis seed (default 1). Exit 0 held / 1 VIOLATION / 2 harness error. known_findings.json lists recorded defects (status known) and repaired ones (status fixed).",
+    "notes": "Every check: ./check <id> [--tier quick|thorough] [--replay file]. VERIF_SEED selects the Hypothesis seed (default 1). Exit 0 held / 1 VIOLATION / 2 harness error. known_findings.json lists recorded defects (status known: KF-C01, KF-C04, KF-C09, KF-C20) and repaired ones (status fixed, with their /repo commit). Ten checks add a coverage-guided stage (atheris, installed by the stage itself from the offline wheelhouse into .deps; VERIF_FUZZ=0 switches it off). seeded/ holds 140 independently written breaking changes (seeded/RESULTS.json: outcome per change at HEAD), sensitivity/ the hand mutants.",
 }
 json.dump(man, open(os.path.join(ROOT, "MANIFEST.json"), "w"), indent=1)
 print("checks:", [c["property_id"] for c in checks], "na:", [n["property_id"] for n in na])
